@@ -3,7 +3,8 @@
 
   Wharf/Proofs/Commit.lean proves the commit correct under `NKC` (no path changes kind).  Here the same
   conclusion is proved under the weaker `BKC` ("benign kind changes"), which allows
-    symlink -> file, dir(empty) -> file        (the file being staged or the output of a transposition),
+    symlink -> file, dir -> file               (the file being staged or the output of a transposition; whatever
+                                                lies below the old directory — repair of F8 (1)/(2)),
     file -> dir                                (the old file not being a transposition source),
     symlink -> dir,
     file -> symlink, dir -> symlink            (whatever becomes of the old file or of what is below the directory),
@@ -13,11 +14,13 @@
   * `ensureDir` now really removes what is in the way (`ensureDir_spec'`); the state after `ensureDirs` is
     described by the same `Ensured` as under `NKC` (the new directories are in place, everything else is as in
     the old tree), only it comes about differently (`ensureDirsPhase_spec'`);
-  * the transposition phase is reused as it is (`transp_core` only needs: outputs are `XSlot`s, temporary names
-    are free, sources are still there), with the new file paths as soft paths: an output may land on an old
-    symlink or on an empty old directory, which `copy` and `move` remove first (`Ensured.xslot_of_newfile`);
-  * staged moves may land on a symlink or on an empty directory (`stageFold_spec'`), so the tree after the
-    moves is described by frames rather than by `SameNF`;
+  * the transposition phase is reused as it is (`transp_core` only needs: the outputs that do not go through a
+    temporary name are `XSlot`s, temporary names are free, sources are still there), with the new file paths that
+    are not old directories as soft paths (`Soft`): such an output may land on an old symlink, which `copy` and
+    `move` remove first (`Ensured.xslot_of_newfile`); an output that is a directory of the old build gets a
+    temporary name, and the cleanup rename removes the directory with all that is left in it (`cleanup_specD`);
+  * staged moves may land on a symlink or on a directory, which goes with all that is left in it
+    (`stageFold_specD`), so the tree after the moves is described by frames rather than by `SameNF`;
   * `ensureSymlink` now really removes what is in the way too (`ensureSymlink_spec'`: a directory goes with its
     whole subtree).  Since the repair of finding F27 the symlink pass runs AFTER the transpositions, the staged
     moves and the overlays, on a tree in which all new directories and files are in place; it leaves them alone
@@ -33,67 +36,6 @@ namespace Wharf.Commit
 open Wharf Wharf.FS Wharf.Archive
 
 /-! ### erasing a subtree -/
-
-theorem get_eraseTree {t : Tree} {p : Path} (hp : p ≠ []) (q : Path) :
-    (t.eraseTree p).get q = if q = p ∨ isPrefix p q = true then none else t.get q := by
-  by_cases hq : q = []
-  · subst hq
-    have : ¬ (([] : Path) = p ∨ isPrefix p [] = true) := by
-      rintro (h | h)
-      · exact hp h.symm
-      · simp [isPrefix] at h
-    rw [if_neg this]
-    simp [Tree.get]
-  · simp only [Tree.get, if_neg hq, Tree.eraseTree, List.find?_filter]
-    by_cases hc : q = p ∨ isPrefix p q = true
-    · simp only [if_pos hc, Option.map_eq_none_iff, List.find?_eq_none]
-      intro e _
-      by_cases h : e.1 = q
-      · rcases hc with hc | hc
-        · simp [h, hc]
-        · simp [h, hc]
-      · simp [h]
-    · simp only [if_neg hc]
-      congr 1
-      apply find?_congr'
-      intro e _
-      by_cases h : e.1 = q
-      · have h1 : ¬ q = p := fun h' => hc (Or.inl h')
-        have h2 : isPrefix p q = false := by
-          cases hh : isPrefix p q with
-          | false => rfl
-          | true => exact absurd (Or.inr hh) hc
-        simp [h, h1, h2]
-      · simp [h]
-
-theorem tinv_eraseTree {t : Tree} (hI : TInv t) {p : Path} (hp : p ≠ []) : TInv (t.eraseTree p) := by
-  have hmem : ∀ e ∈ (t.eraseTree p).entries, e ∈ t.entries ∧ e.1 ≠ p ∧ isPrefix p e.1 = false := by
-    intro e he
-    simp only [Tree.eraseTree, List.mem_filter, Bool.and_eq_true, bne_iff_ne, ne_eq, Bool.not_eq_true'] at he
-    exact ⟨he.1, he.2.1, he.2.2⟩
-  constructor
-  · intro e he; exact hI.ne e (hmem e he).1
-  · intro e he
-    obtain ⟨h1, h2, h3⟩ := hmem e he
-    rw [get_eraseTree hp, if_neg]
-    · exact hI.get e h1
-    · rintro (h | h)
-      · exact h2 h
-      · rw [h3] at h; cases h
-  · intro e he
-    obtain ⟨h1, h2, h3⟩ := hmem e he
-    simp only [IsDir]
-    rw [get_eraseTree hp, if_neg]
-    · exact hI.parent e h1
-    · rintro (h | h)
-      · have := isPrefix_dropLast_self (hI.ne e h1)
-        rw [h, h3] at this; cases this
-      · have := isPrefix_of_dropLast h
-        rw [h3] at this; cases this
-
-theorem removeAll_plain {t : Tree} (hI : TInv t) {p : Path} (h : Plain t p) :
-    removeAll t p = .ok (t.eraseTree p) := by
-  simp only [removeAll, h.canon hI]
 
 /-- a present path is plain (its parent chain is made of directories) provided it has no `..` -/
 theorem plain_of_get {t : Tree} (hI : TInv t) {p : Path} {n : Node} (hp : p ≠ []) (hdd : ".." ∉ p)
@@ -396,20 +338,11 @@ theorem ensureSymlinks_spec' : ∀ (L : List (Path × String)) (t : Tree), TInv 
     becomes a symlink: what stood there, and below it, is still in place while the files are renamed and copied,
     and goes away afterwards. -/
 structure BKC (old new : Build) (w : Work) : Prop where
-  /-- dir → file: the old directory is empty -/
-  emptyDir : ∀ p, p ∈ old.dirs → p ∈ new.files.map (·.1) → ∀ q ∈ pathsOf old, isPrefix p q = false
   /-- file → dir: the old file is not a transposition source (it is cleared by `ensureDirs`, which runs first) -/
   sources : ∀ p ∈ srcsOf old new w, p ∉ new.dirs
   /-- file → dir, symlink → dir: the replaced path is listed before the new directories below it -/
   dirOrder : new.dirs.Pairwise (fun a b => isPrefix b a = true →
     b ∉ old.files.map (·.1) ∧ b ∉ old.symlinks.map (·.1))
-
-theorem BWF.prefix_mem_dirs {b : Build} (h : BWF b) {p q : Path} (hp : p ∈ pathsOf b) (hq : q ≠ [])
-    (hpre : isPrefix q p = true) : q ∈ b.dirs := by
-  obtain ⟨h1, h2⟩ := eq_take_of_isPrefix hpre
-  rw [h1]
-  have : q.length ≠ 0 := fun h0 => hq (List.eq_nil_of_length_eq_zero h0)
-  exact h.parents p hp _ (by omega) h2
 
 /-- no path of a build lies below one of its symlinks -/
 theorem BWF.not_below_symlink {b : Build} (h : BWF b) {p : Path} (hp : p ∈ pathsOf b) {e : Path × String}
@@ -420,15 +353,6 @@ theorem BWF.not_below_symlink {b : Build} (h : BWF b) {p : Path} (hp : p ∈ pat
     have hes : e.1 ∈ b.symlinks.map (·.1) := List.mem_map.mpr ⟨e, he, rfl⟩
     have := h.prefix_mem_dirs hp (h.ne (mem_pathsOf.mpr (Or.inr (Or.inl hes)))) hh
     exact absurd hes (h.dir_not_symlink this)
-
-/-- no path of a build lies below one of its files -/
-theorem BWF.not_below_file {b : Build} (h : BWF b) {p : Path} (hp : p ∈ pathsOf b) {f : Path}
-    (hf : f ∈ b.files.map (·.1)) : isPrefix f p = false := by
-  cases hh : isPrefix f p with
-  | false => rfl
-  | true =>
-    have := h.prefix_mem_dirs hp (h.ne (mem_pathsOf.mpr (Or.inr (Or.inr hf)))) hh
-    exact absurd hf (h.dir_not_file this)
 
 theorem srcsOf_old {old new : Build} {w : Work} {p : Path} (h : p ∈ srcsOf old new w) :
     p ∈ old.files.map (·.1) := by
@@ -483,15 +407,24 @@ theorem Ensured.oldFile' {old new : Build} {w : Work} (ho : BWF old) (hb : BKC o
   · rw [he.other p (hb.sources p hs)]
     exact get_file_treeOfBuild ho hp
 
-/-! ### the destinations of the transposition phase: `XSlot`s, the soft paths being the new file paths -/
+/-! ### the destinations of the transposition phase
 
-/-- a new file path is a place where `copy` and `move` can put the file, whatever the old build had there: nothing,
-    a regular file, a symlink or an EMPTY directory (`emptyDir`) -/
-theorem Ensured.xslot_of_newfile {old new : Build} {w : Work} (ho : BWF old) (hn : BWF new) (hb : BKC old new w)
-    {t₁ : Tree} (he : Ensured new (treeOfBuild old) t₁) {p : Path} (hp : p ∈ new.files.map (·.1)) :
-    XSlot (fun q => q ∈ new.files.map (·.1)) t₁ p := by
+  The second pass only writes to temporary names and to outputs that are NOT directories of the old build (an
+  output that is one goes through a temporary name since the repair of F8 (1)/(2)): `XSlot`s, the soft paths
+  being the new file paths that are not old directories (`Soft`).  The old directories — with the transposition
+  sources below them — stay as they are until the cleanup renames, which `transp_core` handles with
+  `cleanup_specD`. -/
+
+/-- the soft paths of the second pass: new file paths that are not directories of the old build -/
+def Soft (old new : Build) (q : Path) : Prop := q ∈ new.files.map (·.1) ∧ q ∉ old.dirs
+
+/-- a new file path that is not an old directory is a place where `copy` and `move` can put the file, whatever the
+    old build had there: nothing, a regular file, a symlink -/
+theorem Ensured.xslot_of_newfile {old new : Build} (ho : BWF old) (hn : BWF new)
+    {t₁ : Tree} (he : Ensured new (treeOfBuild old) t₁) {p : Path} (hp : p ∈ new.files.map (·.1))
+    (hnd : p ∉ old.dirs) : XSlot (Soft old new) t₁ p := by
   have hpn : p ∈ pathsOf new := mem_pathsOf.mpr (Or.inr (Or.inr hp))
-  refine ⟨⟨he.plain_of_new hn hpn, fun s hs => hn.not_below_file hpn hs⟩, Or.inr hp, ?_⟩
+  refine ⟨⟨he.plain_of_new hn hpn, fun s hs => hn.not_below_file hpn hs.1⟩, Or.inr ⟨hp, hnd⟩, ?_⟩
   intro q hq
   have hq0 : q ≠ [] := by
     intro h0; subst h0; simp [isPrefix] at hq
@@ -500,19 +433,14 @@ theorem Ensured.xslot_of_newfile {old new : Build} {w : Work} (ho : BWF old) (hn
     have := hn.not_below_file hqn hp
     rw [hq] at this
     cases this
-  have hqo : q ∉ pathsOf old := by
-    intro hqo
-    have hd := ho.prefix_mem_dirs hqo (hn.ne hpn) hq
-    have := hb.emptyDir p hd hp q hqo
-    rw [hq] at this
-    cases this
+  have hqo : q ∉ pathsOf old := fun hqo => hnd (ho.prefix_mem_dirs hqo (hn.ne hpn) hq)
   rw [he.other q (fun h => hqn (mem_pathsOf.mpr (Or.inl h)))]
   exact get_none_treeOfBuild hq0 hqo
 
 theorem Ensured.xslot_of_temp {old new : Build} (hn : BWF new) {t₁ : Tree}
     (he : Ensured new (treeOfBuild old) t₁) {p : Path} (hp : p ∈ new.files.map (·.1)) {k : Nat}
     (hnot : seedName p k ∉ pathsOf old ++ pathsOf new) :
-    XSlot (fun q => q ∈ new.files.map (·.1)) t₁ (seedName p k) ∧ t₁.get (seedName p k) = none := by
+    XSlot (Soft old new) t₁ (seedName p k) ∧ t₁.get (seedName p k) = none := by
   have hpn : p ∈ pathsOf new := mem_pathsOf.mpr (Or.inr (Or.inr hp))
   have hne := hn.ne hpn
   obtain ⟨hsl, hg⟩ := he.slot_of_temp hn hp hnot
@@ -529,17 +457,17 @@ theorem Ensured.xslot_of_temp {old new : Build} (hn : BWF new) {t₁ : Tree}
           exact isPrefix_dropLast_self hne
         · rw [seedName_dropLast hne] at h
           exact isPrefix_of_dropLast h
-      have := hn.not_below_file hpn hs
+      have := hn.not_below_file hpn hs.1
       rw [hsp] at this
       cases this
   · intro q hq
     exact get_none_under_nondir he.inv (by rw [hg]; simp) hq
 
-/-- a transposition source is not below a new file path -/
+/-- a transposition source is not below a soft path: what is above it is a directory of the old build -/
 theorem Ensured.xplain_of_src {old new : Build} {w : Work} (ho : BWF old) (hn : BWF new) (hb : BKC old new w)
     {t₁ : Tree} (he : Ensured new (treeOfBuild old) t₁) {p : Path} {d : List Byte}
     (hs : p ∈ srcsOf old new w) (hp : (p, d) ∈ old.files) :
-    XPlain (fun q => q ∈ new.files.map (·.1)) t₁ p ∧ t₁.get p = some (.file d) := by
+    XPlain (Soft old new) t₁ p ∧ t₁.get p = some (.file d) := by
   obtain ⟨hpl, hg⟩ := he.oldFile' ho hb hs hp
   have hpo : p ∈ pathsOf old := mem_pathsOf.mpr (Or.inr (Or.inr (List.mem_map.mpr ⟨_, hp, rfl⟩)))
   refine ⟨⟨hpl, ?_⟩, hg⟩
@@ -547,22 +475,20 @@ theorem Ensured.xplain_of_src {old new : Build} {w : Work} (ho : BWF old) (hn : 
   cases hh : isPrefix s p with
   | false => rfl
   | true =>
-    exfalso
-    have hd := ho.prefix_mem_dirs hpo (hn.ne (mem_pathsOf.mpr (Or.inr (Or.inr hsf)))) hh
-    have := hb.emptyDir s hd hsf p hpo
-    rw [hh] at this
-    cases this
+    exact absurd (ho.prefix_mem_dirs hpo (hn.ne (mem_pathsOf.mpr (Or.inr (Or.inr hsf.1)))) hh) hsf.2
 
 /-! ### transpositions -/
 
 /-- the tree after the transposition phase, relative to the tree `t₁` after `ensureDirs` -/
 structure Transposed' (old new : Build) (w : Work) (t₁ t₂ : Tree) : Prop where
   inv : TInv t₂
-  /-- outside the new file paths only regular files have changed -/
-  same : SameX (fun q => q ∈ new.files.map (·.1)) t₁ t₂
+  /-- outside the new file paths and what is below them only regular files have changed -/
+  same : ∀ q, q ∉ new.files.map (·.1) → (∀ f ∈ new.files.map (·.1), isPrefix f q = false) →
+    nf (t₂.get q) = nf (t₁.get q)
   outputs : ∀ st ∈ w.transpositions, ∀ p d, new.files[st.1]? = some (p, d) → t₂.get p = some (.file d)
   overlays : ∀ i ∈ w.overlayFiles, ∀ p d, new.files[i]? = some (p, d) → ∃ d', t₂.get p = some (.file d')
-  frame : ∀ q, q ∉ srcsOf old new w → (∀ tr ∈ tsOf old new w, tr.outputPath ≠ q) → t₂.get q = t₁.get q
+  frame : ∀ q, q ∉ srcsOf old new w → (∀ tr ∈ tsOf old new w, tr.outputPath ≠ q) →
+    (∀ f ∈ new.files.map (·.1), isPrefix f q = false) → t₂.get q = t₁.get q
 
 theorem transpositions_spec' {old new : Build} {w : Work} (ho : BWF old) (hn : BWF new) (hb : BKC old new w)
     (hw : WOK old new w) {o₁ o₂ : List Path}
@@ -578,22 +504,38 @@ theorem transpositions_spec' {old new : Build} {w : Work} (ho : BWF old) (hn : B
     cases f1
     cases f2
     exact ⟨d, List.mem_of_getElem? e2, List.mem_of_getElem? e1⟩
-  have hov : ∀ p ∈ ovPaths new w, ∀ tr ∈ tsOf old new w, tr.outputPath ≠ p := by
-    intro p hp tr htr hpp
+  have hov : ∀ p ∈ ovPaths new w, ∀ tr ∈ tsOf old new w,
+      tr.outputPath ≠ p ∧ isPrefix tr.outputPath p = false := by
+    intro p hp tr htr
     simp only [ovPaths, List.mem_filterMap, Option.map_eq_some_iff] at hp
     obtain ⟨i, hi, e, hie, rfl⟩ := hp
-    obtain ⟨st, hst, d, d', e1, _⟩ := mem_tsOf.mp htr
-    have : st.1 = i := hn.filesInj _ _ _ _ _ _ e1 (by rw [hie]) hpp
-    exact (hw.excl₁ i (this ▸ List.mem_map.mpr ⟨st, hst, rfl⟩)).1 hi
-  obtain ⟨t₂, a1, a2, a3, a4, a5, a6⟩ := transp_core ho hn (fun q => q ∈ new.files.map (·.1)) (tsOf old new w)
-    (srcsOf old new w) o₁ o₂
+    constructor
+    · intro hpp
+      obtain ⟨st, hst, d, d', e1, _⟩ := mem_tsOf.mp htr
+      have : st.1 = i := hn.filesInj _ _ _ _ _ _ e1 (by rw [hie]) hpp
+      exact (hw.excl₁ i (this ▸ List.mem_map.mpr ⟨st, hst, rfl⟩)).1 hi
+    · exact hn.not_below_file
+        (mem_pathsOf.mpr (Or.inr (Or.inr (List.mem_map.mpr ⟨e, List.mem_of_getElem? hie, rfl⟩))))
+        (tsOf_new htr)
+  -- an output that does not go through a temporary name is not a directory of the old build
+  have hnd : ∀ tr ∈ tsOf old new w, ¬ Clash (srcsOf old new w ++ old.dirs) tr → tr.outputPath ∉ old.dirs := by
+    intro tr htr hc hd
+    by_cases hno : tr.targetPath = tr.outputPath
+    · obtain ⟨d, h, _⟩ := hT2 tr htr
+      exact ho.dir_not_file hd (hno ▸ List.mem_map.mpr ⟨_, h, rfl⟩)
+    · exact hc ⟨hno, List.mem_append.mpr (Or.inr hd)⟩
+  obtain ⟨t₂, a1, a2, a3, a4, a5, a6⟩ := transp_core ho hn (Soft old new) (tsOf old new w)
+    (srcsOf old new w) old.dirs o₁ o₂
     (ovPaths new w) (tsOf_outputs_nodup hn hw) hT2 (fun _ => mem_srcsOf)
     (h₁.nodup_iff.mpr (srcsOf_nodup old new w)) (fun _ => h₁.mem_iff)
     (h₂.nodup_iff.mpr (srcsOf_nodup old new w)) (fun _ => h₂.mem_iff) hov he.inv
-    (fun tr htr => he.xslot_of_newfile ho hn hb (tsOf_new htr))
+    (fun _ h => h.1) he.dirs
+    (fun tr htr hc => he.xslot_of_newfile ho hn (tsOf_new htr) (hnd tr htr hc))
     (fun tr htr k hfr => he.xslot_of_temp hn (tsOf_new htr) hfr)
     (fun p hp d hmem => he.xplain_of_src ho hn hb hp hmem)
-  refine ⟨t₂, by rw [applyTranspositions_eq]; exact a1, a2, a3, ?_, ?_, a6⟩
+  refine ⟨t₂, by rw [applyTranspositions_eq]; exact a1, a2, ?_, ?_, ?_, ?_⟩
+  · intro q hqf hqb
+    exact a3 q (fun h => hqf h.1) (fun tr htr _ => ⟨fun h => hqf (h ▸ tsOf_new htr), hqb _ (tsOf_new htr)⟩)
   · intro st hst p d hf
     obtain ⟨np, op, d2, f1, f2⟩ := hw.transp st hst
     rw [hf] at f1
@@ -613,63 +555,22 @@ theorem transpositions_spec' {old new : Build} {w : Work} (ho : BWF old) (hn : B
     refine ⟨e.2, ?_⟩
     rw [a5 p hp f2, he.other p (fun h => hn.dir_not_file h hpf), ← he2]
     exact get_file_treeOfBuild ho (p := e.1) (d := e.2) he1
+  · intro q hqs hqo hqb
+    exact a6 q hqs hqo (fun tr htr _ => hqb _ (tsOf_new htr))
 
-/-! ### staged moves onto a symlink or an empty directory -/
+/-! ### staged moves onto whatever stands there -/
 
-theorem stageStep_spec' {new : Build} {t : Tree} (hI : TInv t) {i : Nat} {p : Path} {d : List Byte}
-    (hf : new.files[i]? = some (p, d)) (hp : Plain t p) (hnu : ∀ q, isPrefix p q = true → t.get q = none) :
-    ∃ t', stageStep new t i = .ok t' ∧ TInv t' ∧
-      ∀ q, t'.get q = if q = p then some (.file d) else t.get q := by
-  have hnue : ∀ e ∈ t.entries, isPrefix p e.1 = false := by
-    intro e he
-    cases hh : isPrefix p e.1 with
-    | false => rfl
-    | true =>
-      have := hI.get e he
-      rw [hnu _ hh] at this
-      cases this
-  -- `os.Remove` of whatever is there
-  have hrm : ∃ t0, ((remove t p = .error .enoent ∧ t0 = t) ∨ remove t p = .ok t0) ∧ TInv t0 ∧
-      t0.get p = none ∧ ∀ q, q ≠ p → t0.get q = t.get q := by
-    cases hg : t.get p with
-    | none => exact ⟨t, Or.inl ⟨remove_none hI hp hg, rfl⟩, hI, hg, fun _ _ => rfl⟩
-    | some n =>
-      have hr : remove t p = .ok (t.erase p) := by
-        by_cases hd : n = .dir
-        · subst hd
-          exact remove_emptydir hI hp hg hnue
-        · exact remove_nondir hI hp hg hd
-      refine ⟨t.erase p, Or.inr hr, hI.erase hp.ne (dropLast_ne_of_no_under hI hnue), ?_, ?_⟩
-      · rw [get_erase hp.ne, if_pos rfl]
-      · intro q hq
-        rw [get_erase hp.ne, if_neg hq]
-  obtain ⟨t0, hr, hI0, hg0, hf0⟩ := hrm
-  have hs0 : Slot t0 p := by
-    refine ⟨⟨hp.ne, ?_, hp.nodd⟩, by rw [hg0]; rfl⟩
-    simp only [IsDir]
-    rw [hf0 _ hp.dropLast_ne]
-    exact hp.parent
-  obtain ⟨hm, hw⟩ := write_slot hI0 hs0 d
-  obtain ⟨h1, _, h3⟩ := set_file_spec hI0 hs0 d
-  refine ⟨t0.set p (.file d), ?_, h1, ?_⟩
-  · rcases hr with ⟨hr, rfl⟩ | hr
-    · simp only [stageStep, hf, hr, bind, Except.bind, hm, hw]
-      rfl
-    · simp only [stageStep, hf, hr, bind, Except.bind, hm, hw]
-  · intro q
-    rw [h3]
-    by_cases hq : q = p
-    · simp [hq]
-    · simp only [if_neg hq]; exact hf0 q hq
-
-theorem stageFold_spec' {new : Build} (hinj : FilesInj new) : ∀ (L : List Nat) (t : Tree), TInv t →
+/-- the staged moves: each file goes where it belongs, whatever stands there (a directory goes with all that is
+    below it); nothing else changes -/
+theorem stageFold_specD {new : Build} (hinj : FilesInj new) : ∀ (L : List Nat) (t : Tree), TInv t →
     L.Nodup →
-    (∀ i ∈ L, ∃ p d, new.files[i]? = some (p, d) ∧ Plain t p ∧ ∀ q, isPrefix p q = true → t.get q = none) →
+    (∀ i ∈ L, ∃ p d, new.files[i]? = some (p, d) ∧ Plain t p) →
     (∀ i ∈ L, ∀ j ∈ L, ∀ p d p' d', new.files[i]? = some (p, d) → new.files[j]? = some (p', d') →
       isPrefix p p' = false) →
     ∃ t', L.foldlM (stageStep new) t = .ok t' ∧ TInv t' ∧
       (∀ i ∈ L, ∀ p d, new.files[i]? = some (p, d) → t'.get p = some (.file d)) ∧
-      (∀ q, (∀ i ∈ L, ∀ p d, new.files[i]? = some (p, d) → q ≠ p) → t'.get q = t.get q) := by
+      (∀ q, (∀ i ∈ L, ∀ p d, new.files[i]? = some (p, d) → q ≠ p ∧ isPrefix p q = false) →
+        t'.get q = t.get q) := by
   intro L
   induction L with
   | nil =>
@@ -678,27 +579,26 @@ theorem stageFold_spec' {new : Build} (hinj : FilesInj new) : ∀ (L : List Nat)
   | cons i L ih =>
     intro t hI hnd hL hnp
     simp only [List.nodup_cons] at hnd
-    obtain ⟨p, d, hf, hp, hnu⟩ := hL i (by simp)
-    obtain ⟨t1, h1, hI1, hg1⟩ := stageStep_spec' hI hf hp hnu
+    obtain ⟨p, d, hf, hp⟩ := hL i (by simp)
+    obtain ⟨t1, h1, hI1, hg1⟩ := stageStep_specD hI hf hp
+    have hkeep : ∀ q, q ≠ p → isPrefix p q = false → t1.get q = t.get q := by
+      intro q h1 h2
+      rw [hg1, if_neg h1, if_neg (by rw [h2]; simp)]
     obtain ⟨t', h2, hI2, ha2, hf2⟩ := ih t1 hI1 hnd.2 (by
       intro j hj
-      obtain ⟨p', d', hf', hp', hnu'⟩ := hL j (by simp [hj])
+      obtain ⟨p', d', hf', hp'⟩ := hL j (by simp [hj])
       have hpp' : isPrefix p p' = false := hnp i (by simp) j (by simp [hj]) _ _ _ _ hf hf'
-      have hp'p : isPrefix p' p = false := hnp j (by simp [hj]) i (by simp) _ _ _ _ hf' hf
-      refine ⟨p', d', hf', ⟨hp'.ne, ?_, hp'.nodd⟩, ?_⟩
-      · simp only [IsDir]
-        rw [hg1, if_neg]
-        · exact hp'.parent
-        · intro h
-          have := isPrefix_dropLast_self hp'.ne
-          rw [h, hpp'] at this
-          cases this
-      · intro q hq
-        rw [hg1, if_neg]
-        · exact hnu' q hq
-        · intro h
-          rw [h, hp'p] at hq
-          cases hq)
+      refine ⟨p', d', hf', ⟨hp'.ne, ?_, hp'.nodd⟩⟩
+      simp only [IsDir]
+      rw [hkeep]
+      · exact hp'.parent
+      · intro h
+        have := isPrefix_dropLast_self hp'.ne
+        rw [h, hpp'] at this
+        cases this
+      · cases hh : isPrefix p p'.dropLast with
+        | false => rfl
+        | true => rw [isPrefix_of_dropLast hh] at hpp'; cases hpp')
       (fun a ha b hb => hnp a (by simp [ha]) b (by simp [hb]))
     refine ⟨t', by simp only [List.foldlM_cons, bind, Except.bind, h1, h2], hI2, ?_, ?_⟩
     · intro j hj p' d' hf'
@@ -707,17 +607,20 @@ theorem stageFold_spec' {new : Build} (hinj : FilesInj new) : ∀ (L : List Nat)
       · rw [hf] at hf'
         cases hf'
         rw [hf2, hg1, if_pos rfl]
-        intro k hk p2 d2 hf2' hpp
+        intro k hk p2 d2 hf2'
+        refine ⟨?_, hnp k (by simp [hk]) j (by simp) _ _ _ _ hf2' hf⟩
+        intro hpp
         have := hinj _ _ _ _ _ _ hf hf2' hpp
         subst this
         exact hnd.1 hk
       · exact ha2 j hj p' d' hf'
     · intro q hq
-      rw [hf2 q (fun j hj => hq j (by simp [hj])), hg1, if_neg (hq i (by simp) p d hf)]
+      obtain ⟨q1, q2⟩ := hq i (by simp) p d hf
+      rw [hf2 q (fun j hj => hq j (by simp [hj])), hkeep q q1 q2]
 
 /-! ### putting the phases after the transpositions together -/
 
-theorem finish_spec' {old new : Build} {w : Work} (ho : BWF old) (hn : BWF new) (hb : BKC old new w)
+theorem finish_spec' {old new : Build} {w : Work} (ho : BWF old) (hn : BWF new)
     (hw : WOK old new w) {t₁ t₂ : Tree} (he : Ensured new (treeOfBuild old) t₁)
     (ht : Transposed' old new w t₁ t₂) :
     ∃ t₃ t₄ t₅ t₆, applyMoves new w t₂ = .ok t₃ ∧ applyOverlays new w t₃ = .ok t₄ ∧
@@ -726,12 +629,21 @@ theorem finish_spec' {old new : Build} {w : Work} (ho : BWF old) (hn : BWF new) 
   have hinj := hn.filesInj
   have hfile_mem : ∀ {i : Nat} {p : Path} {d : List Byte}, new.files[i]? = some (p, d) →
       p ∈ new.files.map (·.1) := fun hf => List.mem_map.mpr ⟨_, mem_files_of_getElem? hf, rfl⟩
+  -- "not below a new file": true of every path of the new build
+  have hnbf : ∀ p ∈ pathsOf new, ∀ f ∈ new.files.map (·.1), isPrefix f p = false :=
+    fun p hp f hf => hn.not_below_file hp hf
   -- an output of a transposition is a new file path, a source is an old one
   have hout_ne : ∀ q, q ∉ new.files.map (·.1) → ∀ tr ∈ tsOf old new w, tr.outputPath ≠ q :=
     fun q hq tr htr h => hq (h ▸ tsOf_new htr)
   -- what `t₁` holds outside the new build
   have h1_other : ∀ q, q ∉ pathsOf new → t₁.get q = (treeOfBuild old).get q :=
     fun q hq => he.other q (fun h => hq (mem_pathsOf.mpr (Or.inl h)))
+  -- a new directory is still a directory after the transpositions
+  have hdir2 : ∀ q ∈ new.dirs, t₂.get q = some .dir := by
+    intro q hq
+    have := ht.same q (hn.dir_not_file hq) (hnbf q (mem_pathsOf.mpr (Or.inl hq)))
+    rw [he.dirs q hq] at this
+    exact nf_eq_dir.mp this
   -- a new path is still plain after the transpositions: its parent is a new directory
   have hplain2 : ∀ p ∈ pathsOf new, Plain t₂ p := by
     intro p hpn
@@ -739,44 +651,35 @@ theorem finish_spec' {old new : Build} {w : Work} (ho : BWF old) (hn : BWF new) 
     refine ⟨h1.ne, ?_, h1.nodd⟩
     rcases hn.parent_mem hpn with h0 | h0
     · rw [h0]; exact isDir_nil _
-    · exact (ht.same.isDir (hn.dir_not_file h0)).mpr (he.dirs _ h0)
-  -- staged moves
-  obtain ⟨t₃, h3, hI3, ha3, hf3⟩ := stageFold_spec' hinj w.moveFiles t₂ ht.inv hw.nodupM (by
+    · exact hdir2 _ h0
+  -- staged moves: whatever stands where a staged file goes gives way — a directory of the old build with all
+  -- that is left below it (`os.RemoveAll`): nothing of the new build is below a new file path
+  obtain ⟨t₃, h3, hI3, ha3, hf3⟩ := stageFold_specD hinj w.moveFiles t₂ ht.inv hw.nodupM (by
     intro i hi
-    obtain ⟨p, d, hf, hpo⟩ := hw.move i hi
-    have hp : p ∈ new.files.map (·.1) := hfile_mem hf
-    have hpn : p ∈ pathsOf new := mem_pathsOf.mpr (Or.inr (Or.inr hp))
-    refine ⟨p, d, hf, hplain2 p hpn, ?_⟩
-    intro q hq
-    have hq0 : q ≠ [] := by
-      intro h0; subst h0; simp [isPrefix] at hq
-    have hqn : q ∉ pathsOf new := by
-      intro hqn
-      have := hn.not_below_file hqn hp
-      rw [hq] at this
-      cases this
-    have hqo : q ∉ pathsOf old := by
-      intro hqo
-      have hd := ho.prefix_mem_dirs hqo (hn.ne hpn) hq
-      have := hb.emptyDir p hd hp q hqo
-      rw [hq] at this
-      cases this
-    rw [ht.frame q (fun h => hqo (mem_pathsOf.mpr (Or.inr (Or.inr (srcsOf_old h)))))
-      (hout_ne q (fun h => hqn (mem_pathsOf.mpr (Or.inr (Or.inr h))))), h1_other q hqn]
-    exact get_none_treeOfBuild hq0 hqo) (by
+    obtain ⟨p, d, hf, _⟩ := hw.move i hi
+    exact ⟨p, d, hf, hplain2 p (mem_pathsOf.mpr (Or.inr (Or.inr (hfile_mem hf))))⟩) (by
     intro i _ j _ p d p' d' hf hf'
     exact hn.not_below_file (mem_pathsOf.mpr (Or.inr (Or.inr (hfile_mem hf')))) (hfile_mem hf))
-  have h23 : ∀ q, q ∉ new.files.map (·.1) → t₃.get q = t₂.get q := by
-    intro q hq
+  have h23 : ∀ q, q ∉ new.files.map (·.1) → (∀ f ∈ new.files.map (·.1), isPrefix f q = false) →
+      t₃.get q = t₂.get q := by
+    intro q hq hqb
     apply hf3
-    intro i _ p d hf hqp
-    exact hq (hqp ▸ hfile_mem hf)
+    intro i _ p d hf
+    exact ⟨fun hqp => hq (hqp ▸ hfile_mem hf), hqb p (hfile_mem hf)⟩
   have hdir3 : ∀ q ∈ new.dirs, t₃.get q = some .dir := by
     intro q hq
-    rw [h23 q (hn.dir_not_file hq)]
-    have := ht.same.out q (hn.dir_not_file hq)
-    rw [he.dirs q hq] at this
-    exact nf_eq_dir.mp this
+    rw [h23 q (hn.dir_not_file hq) (hnbf q (mem_pathsOf.mpr (Or.inl hq)))]
+    exact hdir2 q hq
+  -- a new file that is not staged is left alone by the staged moves
+  have h23f : ∀ i p d, new.files[i]? = some (p, d) → i ∉ w.moveFiles → t₃.get p = t₂.get p := by
+    intro i p d hf hi
+    apply hf3
+    intro j hj p' d' hf'
+    refine ⟨?_, hn.not_below_file (mem_pathsOf.mpr (Or.inr (Or.inr (hfile_mem hf)))) (hfile_mem hf')⟩
+    intro hpp
+    have := hinj _ _ _ _ _ _ hf hf' hpp
+    subst this
+    exact hi hj
   -- overlays
   obtain ⟨t₄, h4, hI4, hnf4, ha4, hf4⟩ := overlayFold_spec hinj w.overlayFiles t₃ hI3 hw.nodupO (by
     intro i hi
@@ -788,22 +691,20 @@ theorem finish_spec' {old new : Build} {w : Work} (ho : BWF old) (hn : BWF new) 
     · rcases hn.parent_mem hpn with h0 | h0
       · rw [h0]; exact isDir_nil _
       · exact hdir3 _ h0
-    · rw [hf3 p, hd']
-      intro j hj p' d'' hf' hpp
-      have := hinj _ _ _ _ _ _ hf hf' hpp
-      subst this
-      exact hw.excl₂ i hi hj)
+    · rw [h23f i p d hf (hw.excl₂ i hi), hd'])
   have h34 : ∀ q, q ∉ new.files.map (·.1) → t₄.get q = t₃.get q := by
     intro q hq
     apply hf4
     intro i _ p d hf hqp
     exact hq (hqp ▸ hfile_mem hf)
-  have h24 : ∀ q, q ∉ new.files.map (·.1) → t₄.get q = t₂.get q := fun q hq => (h34 q hq).trans (h23 q hq)
-  -- outside the new build and the sources, `t₄` is `t₁`
-  have h14 : ∀ q, q ∉ pathsOf new → q ∉ srcsOf old new w → t₄.get q = t₁.get q := by
-    intro q hqn hqs
+  have h24 : ∀ q, q ∉ new.files.map (·.1) → (∀ f ∈ new.files.map (·.1), isPrefix f q = false) →
+      t₄.get q = t₂.get q := fun q hq hqb => (h34 q hq).trans (h23 q hq hqb)
+  -- outside the new build, the sources and what is below a new file, `t₄` is `t₁`
+  have h14 : ∀ q, q ∉ pathsOf new → q ∉ srcsOf old new w → (∀ f ∈ new.files.map (·.1), isPrefix f q = false) →
+      t₄.get q = t₁.get q := by
+    intro q hqn hqs hqb
     have hqf : q ∉ new.files.map (·.1) := fun h => hqn (mem_pathsOf.mpr (Or.inr (Or.inr h)))
-    rw [h24 q hqf, ht.frame q hqs (hout_ne q hqf)]
+    rw [h24 q hqf hqb, ht.frame q hqs (hout_ne q hqf) hqb]
   -- the new directories and the new files are in place
   have hdir4 : ∀ q ∈ new.dirs, t₄.get q = some .dir := by
     intro q hq
@@ -819,15 +720,11 @@ theorem finish_spec' {old new : Build} {w : Work} (ho : BWF old) (hn : BWF new) 
       obtain ⟨st, hst, hsti⟩ := List.mem_map.mp hc
       have h2 := ht.outputs st hst e.1 e.2 (by rw [hsti]; exact hfi)
       have hx := hw.excl₁ i hc
-      rw [hf4, hf3, h2]
-      · intro j hj p' d' hf' hpp
-        have := hinj _ _ _ _ _ _ hfi hf' hpp
-        subst this
-        exact hx.2 hj
-      · intro j hj p' d' hf' hpp
-        have := hinj _ _ _ _ _ _ hfi hf' hpp
-        subst this
-        exact hx.1 hj
+      rw [hf4, h23f i e.1 e.2 hfi hx.2, h2]
+      intro j hj p' d' hf' hpp
+      have := hinj _ _ _ _ _ _ hfi hf' hpp
+      subst this
+      exact hx.1 hj
     · exact ha4 i hc e.1 e.2 hfi
     · rw [hf4, ha3 i hc e.1 e.2 hfi]
       intro j hj p' d' hf' hpp
@@ -868,25 +765,54 @@ theorem finish_spec' {old new : Build} {w : Work} (ho : BWF old) (hn : BWF new) 
       rw [hf5 p (fun h => hn.symlink_not_file h hf), if_neg (hnb p hp), ← he2,
         get_file_treeOfBuild hn (p := e.1) (d := e.2) he1]
       exact hfiles4 e he1
+  -- nothing is left below a new file: the file is in place
+  have hbelow5 : ∀ q, ∀ f ∈ new.files.map (·.1), isPrefix f q = true → t₅.get q = none := by
+    intro q f hf hpre
+    apply get_none_under_nondir hI5 _ hpre
+    obtain ⟨e, he1, he2⟩ := List.mem_map.mp hf
+    rw [hnewOK f (mem_pathsOf.mpr (Or.inr (Or.inr hf))), ← he2,
+      get_file_treeOfBuild hn (p := e.1) (d := e.2) he1]
+    simp
+  have hcases : ∀ q, (∃ f ∈ new.files.map (·.1), isPrefix f q = true) ∨
+      (∀ f ∈ new.files.map (·.1), isPrefix f q = false) := by
+    intro q
+    by_cases h : ∃ f ∈ new.files.map (·.1), isPrefix f q = true
+    · exact Or.inl h
+    · right
+      intro f hf
+      cases hh : isPrefix f q with
+      | false => rfl
+      | true => exact absurd ⟨f, hf, hh⟩ h
   have hstray : ∀ q, q ≠ [] → q ∉ pathsOf new → q ∉ pathsOf old → t₅.get q = none := by
     intro q hq0 hqn hqo
-    rw [h45 q hqn]
-    split
-    · rfl
-    · rw [h14 q hqn (fun h => hqo (mem_pathsOf.mpr (Or.inr (Or.inr (srcsOf_old h))))), h1_other q hqn]
-      exact get_none_treeOfBuild hq0 hqo
+    rcases hcases q with ⟨f, hf, hpre⟩ | hqb
+    · exact hbelow5 q f hf hpre
+    · rw [h45 q hqn]
+      split
+      · rfl
+      · rw [h14 q hqn (fun h => hqo (mem_pathsOf.mpr (Or.inr (Or.inr (srcsOf_old h))))) hqb, h1_other q hqn]
+        exact get_none_treeOfBuild hq0 hqo
   have hpre : PreGhost old new t₅ := by
     refine ⟨hI5, hnewOK, hstray, ?_, ?_⟩
-    · -- ghosts: one below a path that has become a symlink is skipped; the parent chain of every other one is
-      -- made of directories
+    · -- ghosts: one below a path that has become a file or a symlink is skipped; the parent chain of every other
+      -- one is made of directories
       intro q hqo hqn hsk
+      have hleaf : ∀ l ∈ leavesOf new, isPrefix l q = false := by
+        intro l hl
+        cases hh : isPrefix l q with
+        | false => rfl
+        | true =>
+          have : (leavesOf new).any (fun l => isPrefix l q) = true := List.any_eq_true.mpr ⟨l, hl, hh⟩
+          rw [hsk] at this
+          cases this
       have hsym : ¬ ∃ e ∈ new.symlinks, isPrefix e.1 q = true := by
         rintro ⟨e, he1, hpre⟩
-        have : (leavesOf new).any (fun l => isPrefix l q) = true := by
-          apply List.any_eq_true.mpr
-          exact ⟨e.1, by simp only [leavesOf, List.mem_append]; exact Or.inr (List.mem_map.mpr ⟨e, he1, rfl⟩), hpre⟩
-        rw [hsk] at this
+        have := hleaf e.1 (by
+          simp only [leavesOf, List.mem_append]; exact Or.inr (List.mem_map.mpr ⟨e, he1, rfl⟩))
+        rw [hpre] at this
         cases this
+      have hfil : ∀ f ∈ new.files.map (·.1), isPrefix f q = false := fun f hf =>
+        hleaf f (by simp only [leavesOf, List.mem_append]; exact Or.inl hf)
       intro j hj
       by_cases hj0 : j = 0
       · subst hj0; simpa using isDir_nil t₅
@@ -903,7 +829,7 @@ theorem finish_spec' {old new : Build} {w : Work} (ho : BWF old) (hn : BWF new) 
           exact hsym ⟨e, he1, by rw [he2]; exact hq'pre⟩
         · by_cases h3 : q' ∈ new.files.map (·.1)
           · exfalso
-            have := hb.emptyDir q' hq'd h3 q hqo
+            have := hfil q' h3
             rw [hq'pre] at this
             cases this
           · have hq'n : q' ∉ pathsOf new := by
@@ -912,7 +838,15 @@ theorem finish_spec' {old new : Build} {w : Work} (ho : BWF old) (hn : BWF new) 
               · exact h1 h
               · exact h2 h
               · exact h3 h
-            rw [h45 q' hq'n, if_neg, h14 q' hq'n (fun h => ho.dir_not_file hq'd (srcsOf_old h)),
+            have hq'b : ∀ f ∈ new.files.map (·.1), isPrefix f q' = false := by
+              intro f hf
+              cases hh : isPrefix f q' with
+              | false => rfl
+              | true =>
+                have := hfil f hf
+                rw [isPrefix_trans hh hq'pre] at this
+                cases this
+            rw [h45 q' hq'n, if_neg, h14 q' hq'n (fun h => ho.dir_not_file hq'd (srcsOf_old h)) hq'b,
               h1_other q' hq'n]
             · exact get_dir_treeOfBuild ho hq'd
             · rintro ⟨e, he1, hpre⟩
@@ -920,12 +854,15 @@ theorem finish_spec' {old new : Build} {w : Work} (ho : BWF old) (hn : BWF new) 
     · -- an old file or symlink that is not a new path has not become a directory
       intro q hqo hqn hqd hd5
       have hqf : q ∉ new.files.map (·.1) := fun h => hqn (mem_pathsOf.mpr (Or.inr (Or.inr h)))
+      rcases hcases q with ⟨f, hf, hpre⟩ | hqb
+      · rw [hbelow5 q f hf hpre] at hd5
+        cases hd5
       rw [h45 q hqn] at hd5
       split at hd5
       · cases hd5
-      · rw [h24 q hqf] at hd5
+      · rw [h24 q hqf hqb] at hd5
         have h1 : t₁.get q = some .dir := by
-          have := ht.same.out q hqf
+          have := ht.same q hqf hqb
           rw [hd5] at this
           exact nf_eq_dir.mp this.symm
         rw [h1_other q hqn] at h1
@@ -950,7 +887,7 @@ theorem commit_spec' {old new : Build} {w : Work} (ho : BWF old) (hn : BWF new) 
       ∀ p, t'.get p = (treeOfBuild new).get p := by
   obtain ⟨t₁, e1, he⟩ := ensureDirsPhase_spec' ho hn hb.dirOrder
   obtain ⟨t₂, e2, ht⟩ := transpositions_spec' ho hn hb hw h₁ h₂ he
-  obtain ⟨t₃, t₄, t₅, t₆, e3, e4, e5, e6, hI6, hg6⟩ := finish_spec' ho hn hb hw he ht
+  obtain ⟨t₃, t₄, t₅, t₆, e3, e4, e5, e6, hI6, hg6⟩ := finish_spec' ho hn hw he ht
   refine ⟨t₆, ?_, hI6, hg6⟩
   simp only [commit, bind, Except.bind, e1, e2, e3, e4, e5, e6]
 
@@ -958,8 +895,6 @@ theorem commit_spec' {old new : Build} {w : Work} (ho : BWF old) (hn : BWF new) 
 theorem NKC.toBKC {old new : Build} (w : Work) (ho : BWF old) (hn : BWF new) (hk : NKC old new) :
     BKC old new w := by
   constructor
-  · intro p hd hf
-    cases hk _ _ _ (kindOf_dir hd) (kindOf_file hn hf)
   · intro p hp
     exact (hk.old_file ho hn (srcsOf_old hp)).1
   · have : ∀ a ∈ new.dirs, ∀ b ∈ new.dirs, isPrefix b a = true →
